@@ -7,10 +7,10 @@ import (
 
 var nameClasses = map[string][]string{
 	"plain":   {"a", "b", "c", "foo", "main.go", "README.md", "Makefile", "x1"},
-	"bullets": {"- x", "* y", "a-b", "+", "-", "*", "#tag", "x # y", "a - b * c + d", "--", "-x"},
+	"bullets": {"- x", "* y", "a-b", "+", "-", "*", "#tag", "x # y", "a - b * c + d", "--", "-x", "todo - later", "a * b", "p + q", "#1 bug", "##"},
 	"blanks":  {" lead", "trail ", "in  side", "\ttab", " ", "a\tb", "  two"},
-	"unicode": {"日本語", "é", "😀", "a\u00a0b", "\u3000x", "x\u2028y", "\u0085n", "ｆｕｌｌ", "\u00a0"},
-	"quotes":  {`"q"`, "a: b", `back\slash`, "x\x01y", "'s'", "{j}", "[l]", "null", "true", "1.5", "k=v", "a,b", "<a>&b", "x<y", "R&D", "100%", "%d", "%s%v", "cpu%d.log"},
+	"unicode": {"caf\ufffd.txt", "日本語", "é", "😀", "a\u00a0b", "\u3000x", "x\u2028y", "\u0085n", "ｆｕｌｌ", "\u00a0"},
+	"quotes":  {`C:\u003cache`, `a\u0026b`, `\u003e`, `"q"`, "a: b", `back\slash`, "x\x01y", "'s'", "{j}", "[l]", "null", "true", "1.5", "k=v", "a,b", "<a>&b", "x<y", "R&D", "100%", "%d", "%s%v", "cpu%d.log"},
 	"path":    {"..", ".", "a/b", "/abs", "x/", "...", ".hidden", "a..b"},
 }
 
@@ -85,6 +85,8 @@ func coveringSpellings() []Spelling {
 		{IndentChar: '\t', Unit: 1, Bullets: "-", FinalNL: true, Sharp: true, LeadBlank: true, BlankRow: ""},
 		{IndentChar: ' ', Unit: 7, Bullets: "-*", FinalNL: false},
 		{IndentChar: ' ', Unit: 2, Bullets: "-", FinalNL: true, NoSpace: true},
+		{IndentChar: ' ', Unit: 2, Bullets: "*", FinalNL: true, Sharp: true, LeadBlank: true, BlankRow: "  "},
+		{IndentChar: ' ', Unit: 2, Bullets: "+*", FinalNL: true, BlankEvery: 3, BlankRow: "\u3000"},
 		{IndentChar: '\t', Unit: 1, Bullets: "*+", FinalNL: true, NoSpace: true, Sharp: true},
 	}
 }
@@ -107,7 +109,9 @@ func randSpelling(r *rand.Rand) Spelling {
 	return s
 }
 
-func allFormats() []Fmt4 { return []Fmt4{fmtDefault, fmtCustom, fmtEmpty, fmtMulti, fmtLookalike} }
+func allFormats() []Fmt4 {
+	return []Fmt4{fmtDefault, fmtCustom, fmtEmpty, fmtMulti, fmtLookalike, fmtPercent}
+}
 
 // forestsUpTo enumerates every ordered forest with 1..n nodes over the alphabet.
 func forestsUpTo(n int, alphabet []string) [][]*Tree {
